@@ -13,6 +13,9 @@ class FrameParser:
         self._buffer = bytearray()
 
     async def receive_data(self, data: bytes, header_length=3) -> AsyncGenerator[Frame, None]:
+        if len(data) == 0:
+            return
+
         self._buffer.extend(data)
         total = len(self._buffer)
 
